@@ -32,7 +32,8 @@ CHECKS = {
               "also when a dim is 1); and, under pmap axioms (psum=D, axis_index=r, all_gather), the post-condition of the real "
               "_pmap_compute_preconditioners that slot k holds gate(prev[k], Root(stat[k], exponent[k], size[k])) - an expression "
               "that does not mention D - for an enumerated (N,D) grid with symbolic matrices of per-statistic symbolic sizes, one or several "
-              "statistics per parameter, plus the frame obligation that slot k reads statistic k and preconditioner k only (no arithmetic on "
+              "statistics per parameter, with reuse_preconditioner (the root routine is a function of the previous preconditioner of THAT statistic) and "
+              "with training metrics off, plus the frame obligation that slot k reads statistic k and preconditioner k only (no arithmetic on "
               "another replica's data, even with a zero coefficient); the selection block of sharded_update_fn stores gate(old k, new k, error k) for "
               "every real statistic for any (N, D), to_pad = 0 included. Not a multi-device execution."),
         design="7/C13",
@@ -73,7 +74,8 @@ CHECKS = {
               "real arithmetic: Inv = (acc_i[x_i] >= nu[x] >= T[x] >= 0 for every coordinate and axis, each accumulator entry "
               "attained by nu) is established by init and preserved by update, hence min_i acc_i >= exact decayed sum of squares "
               "after any history; accumulators never decrease for beta2 = 1; rank 1 coincides with diagonal AdaGrad/RMSProp; "
-              "the step (beta1=0) is bounded by the diagonal method's step. Proved pointwise at Skolem coordinates with "
+              "the step (beta1=0) is bounded by the diagonal method's step; the same on the normalised gradient with normalize_grads; the accumulators "
+              "are float32 whatever the parameter dtype. Proved pointwise at Skolem coordinates with "
               "engine-instantiated max/min facts (quantifier-free)."),
         design="7/C12",
         note=TB + " jnp.max over axes is axiomatised by bound + witness facts; int8 momentum quantisation is executed in real mode "
@@ -88,7 +90,8 @@ CHECKS = {
               "tensor); _compute_stats/gram_weighted_update weights and contraction axes incl. the statistics interval; dense "
               "preconditioner application along each axis for 3 preconditioner types as a polynomial identity at small sizes; "
               "phase order of update_fn; the exponent handed to the root routine (2 x #preconditioned axes or the override, rank 1..4 x 3 types); "
-              "which parameters are preconditioned at all (skip thresholds on the parameter's own shape). preconditioned_grad and the roots enter through contracts. End-to-end float agreement "
+              "which parameters are preconditioned at all (skip thresholds on the parameter's own shape); both refresh intervals are symbolic in every "
+              "_transform_grad task and the refresh cadence of _pmap_compute_preconditioners (shared with C04) is part of the check. preconditioned_grad and the roots enter through contracts. End-to-end float agreement "
               "is not a proof obligation (bounded native reference in the thorough tier)."),
         design="7/C02",
         note=TB + " Norms are uninterpreted reductions with bound/zero facts; preconditioned_grad is an opaque tensor of the gradient's shape.",
@@ -123,7 +126,9 @@ CHECKS = {
               "(tensor rank 1..3, every axis, k<d and k=d): escaped mass t' = b*t + s[k]^2; retained eigenvalues in "
               "{0,(s_i-c)(s_i+c)} and >= 0; dropped columns exactly zero; stored inverse roots (s_i^2 + b*t [+eps])^(-1/p) where "
               "kept / 0 where dropped, inv_tail, and the identity s_i^2 + b*t = l'_i + t' the code relies on; the decomposed "
-              "matrix is [sqrt(b) V diag(sqrt l) ; G] where the rows of G are the mode-axis fibres of the gradient (any enumeration order). SVD/QR outputs are opaque (s descending, >= 0). The OCO sketches are "
+              "matrix is [sqrt(b) V diag(sqrt l) ; G] where the rows of G are the mode-axis fibres of the gradient (any enumeration order); the whole "
+              "Sketchy _update on a statistics step updates every axis for every gradient; frequent_directions_update returns the QR factor of the "
+              "transposed unfolding (a Cholesky of the Gram matrix would leave the run undecided: positive definiteness is not established). SVD/QR outputs are opaque (s descending, >= 0). The OCO sketches are "
               "covered by C16. The PSD bracket itself is the cited FD theorem, not proved."),
         design="7/C09",
         note=TB + " svd: singular values sorted and non-negative; qr(mode='r') opaque; real powers uninterpreted (rpow) with sign facts.",
@@ -169,7 +174,8 @@ CHECKS = {
               "the same under a SCHEDULED interval (configured 1 or symbolic, the interval in force being the schedule's value) and for any "
               "failure threshold; _update_preconditioners_fn dispatch, efficient_cond, the scheduled interval (>= 1, 1 or a multiple of 10), count+1 and "
               "phase order of update_fn; Tearfree Shampoo/Sketchy _update keep blocks/sketches on non-refresh steps, refresh the roots on "
-              "every multiple of the preconditioner interval from the eigh of the current statistics, and advance count by one. Warm-up boundary: C02-P1 / C05-P2. sharded_update_fn as a whole is not executed."),
+              "every multiple of the preconditioner interval from the eigh of the current statistics, and advance count by one; the warm-up boundary "
+              "(graft update before the start step, preconditioned from it on) on the real _transform_grad with step, start and both intervals symbolic. Warm-up boundary: C02-P1 / C05-P2. sharded_update_fn as a whole is not executed."),
         design="7/C04",
         note=TB + " Bit-identity on non-refresh steps is object identity / pointwise equality in the VC; lax.cond/while_loop per section 4.3.",
         technique="contract-based deductive verification: transition contract with symbolic step counter, AST->VC, z3",
@@ -182,7 +188,8 @@ CHECKS = {
               "roots of block b0 only, and the einsum contracts axis a with root a; for Distributed Shampoo (2 blocks, symbolic "
               "dims) statistic k reads the gradient inside block k//n only and block i is preconditioned by roots [i*n,(i+1)*n) and "
               "its own gradient only; the acceptance gate is per statistic (slot k = gate(prev k, root k, error k) whatever the other blocks of "
-              "the tensor do). Two runs agreeing on a block's reads agree on its outputs."),
+              "the tensor do); blocks are merged back into their own boxes for two blocked axes with different block counts; the power iteration of a "
+              "padded statistic starts from a vector that vanishes on the padding. Two runs agreeing on a block's reads agree on its outputs."),
         design="7/C08",
         note=TB + " Reads analysis (pyvc/deps.py): a term's value is a function of its reads; batched eigh is block-local (library contract).",
         technique="contract-based deductive verification: relational frame condition via dependency (reads) analysis of AST->term symbolic execution, z3",
@@ -207,7 +214,8 @@ CHECKS = {
               "scheduled lr, grafting NONE/SGD) with the second-order step as a contract: the update equals "
               "-lr(t) * momentum(weight decay(graft(unmerge(PG)))) pointwise (hence exactly linear in lr), the trace buffer update, each "
               "transform receiving its own state slice, merge before and unmerge after the second-order step (a merged parameter); the graft stage "
-              "and its skip rules for symbolic shapes incl. unit dimensions; Tearfree Shampoo roots follow the preconditioner schedule. "
+              "and its skip rules for symbolic shapes incl. unit dimensions; Tearfree Shampoo roots follow the preconditioner schedule; Sketchy's per-axis "
+              "root values (inv_eig, inv_tail incl. tail = 0). "
               "Tearfree Shampoo statistics C' = beta C + (1-beta) G G' and roots V diag(h^2) V', h = lambda^(-1/(2*2*rank)), per-block "
               "1e-6 cut-off, and Sketchy's (inv_tail (I-VV') + V diag(inv_eig) V') application along every axis, as polynomial "
               "identities at small sizes with symbolic entries. Block-wise contraction of axis a with root a: C08."),
@@ -227,7 +235,8 @@ CHECKS = {
               "_iter_body/_outer_body_fn executed on commuting tokens preserve mat_m = mat_h^p (A+dI) and give |X^p (A+dI) - I| <= reported "
               "error for the returned iterate (exact arithmetic); power_iteration returns the Rayleigh quotient of the last normalised "
               "iterate unchanged (so, by the cited Rayleigh bound, never more than lambda_max); the eigh route never raises a "
-              "non-positive base to the inverse power whatever eigh returns. Convergence, rounding slack, eigh padding zeros and LOBPCG "
+              "non-positive base to the inverse power whatever eigh returns (ridge_epsilon >= 0) and decomposes the masked input plus ridge times the "
+              "masked identity; on the LOBPCG route the reported figure is the residual of the returned matrix against the unconditioned input. Convergence, rounding slack, eigh padding zeros and LOBPCG "
               "are not claimed."),
         design="7/C01",
         note=TB + " eigh opaque; Rayleigh bound and the power identities (Lean lemmas/Spec.lean) cited; termination not proved.",
@@ -237,7 +246,7 @@ CHECKS = {
         text=("Named internal-error sites and layout equalities proved by symbolic execution of the real init_fn/update_fn in the "
               "tree-structure / shape / dtype view (root routine as a contract): for 15 option combinations (graft, intervals, "
               "block_size 1, int8 momenta, metrics off, skip thresholds, INPUT/OUTPUT preconditioners, eigh, compression, reuse, "
-              "frequent directions +/- reuse / average_grad / reset) x 6 parameter trees (ranks 0..3, unit dims) x 2 updates nothing "
+              "frequent directions +/- reuse / average_grad / reset / fd metrics with and without training metrics, all seven grafting types) x 7 parameter trees (ranks 0..3, unit dims) x 2 updates nothing "
               "but an explanatory rejection is raised, the update has the parameters' structure/shapes/dtype and the state layout is "
               "a fixed point; in sharded mode declared shapes/dtypes and partition specs describe the tree sharded_init_fn builds and "
               "every with_sharding_constraint argument has the spec's rank; lax.cond branch types agree for Tearfree Sketchy under "
